@@ -323,4 +323,26 @@ for _id, _neg in (('eq_G', ''), ('ne_G', '!')):
     _m.cross = True
     _m.only_diff = False
     OBS.append(_m)
+
+# overloads taking std::initializer_list< char> (a (pointer, length) view built field-wise by the wrapper) and std::string iterators
+IL = 'std::initializer_list< char> cv_il; cv_il.mB = str; cv_il.mN = count2; '
+itm('insert_it_il', 'insert( const_iterator pos, std::initializer_list< char> ilist)', 'z', [(Z, 'i1'), (B, 'str'), (Z, 'count2')],
+    IL + 'return o->insert( CV_IT(o, i1), cv_il).mIndex;', None, VALID('i1'), RES_INV)
+OBS[-1].blen = 'count2'
+OBS[-1].spec = (lambda sp: {**sp, 'newlen': sp['newlen'].replace('index', P('i1')), 'expect': sp['expect'].replace('index', P('i1')), 'dom': VALID('i1')})(_ins('count2', 'SRC(str,J)'))
+OBS[-1].kf_as = 'insert_it_nc'
+itm('replace_it2_il', 'replace( const_iterator first, const_iterator last, std::initializer_list< char> ilist)', 'r', [(Z, 'i1'), (Z, 'i2'), (B, 'str'), (Z, 'count2')],
+    IL + 'FS& cv_r = o->replace( CV_IT(o, i1), CV_IT(o, i2), cv_il); return &cv_r == o;', _rep(P('i1'), CNT2, 'count2', 'SRC(str,J)', dom=RNG), VALID('i1') + ' && ' + VALID('i2'))
+OBS[-1].blen = 'count2'
+OBS[-1].kf_as = 'replace_it2_sn'
+SJ = 'j1 <= j2 && j2 <= str_n'
+itm('replace_it2_si', 'replace( const_iterator first, const_iterator last, std::string::iterator first2, std::string::iterator last2)', 'r',
+    [(Z, 'i1'), (Z, 'i2'), (SS, 'str'), (Z, 'j1'), (Z, 'j2')],
+    'FS& cv_r = o->replace( CV_IT(o, i1), CV_IT(o, i2), str.begin() + j1, str.begin() + j2); return &cv_r == o;',
+    _rep(P('i1'), CNT2, '(j2 - j1)', 'SRC(str,j1 + J)', dom=RNG + ' && ' + SJ), VALID('i1') + ' && ' + VALID('i2') + ' && ' + SJ)
+OBS[-1].kf_as = 'replace_it2_si'
+
+# sprintf: the variable arguments only reach vsnprintf, which is an ASSUMED contract (stubs/cstdio: writes at most n bytes, NUL-terminated,
+# returns the length the complete output would have); C10 only (no std::string counterpart)
+OBS.append(M('sprintf', 'sprintf( str)', 'r', [(S, 'str')], True))
 OBSERVERS[:] = OBS
